@@ -27,6 +27,7 @@ type UnboundedMailbox struct {
 	paused       uint32               // 是否暂停普通消息处理
 	num          int32                // 用户消息数量
 	systemNum    int32                // 系统消息数量
+	held         vivid.Envelop        // 已出队但尚未处理的普通消息，仅由消费者协程访问
 }
 
 func (m *UnboundedMailbox) Pause() {
@@ -95,11 +96,19 @@ func (m *UnboundedMailbox) processHandle() {
 		}
 
 		// 处理普通消息
-		if msg, ok = m.buffer.Pop(); ok {
-			atomic.AddInt32(&m.num, -1)
-			m.handler.HandleEnvelop(msg.(vivid.Envelop))
-		} else {
-			return
+		if m.held == nil {
+			if msg, ok = m.buffer.Pop(); !ok {
+				return
+			}
+			m.held = msg.(vivid.Envelop)
 		}
+		// 上面检查系统队列之后、普通消息出队之前可能又有系统消息入列：它先于该普通消息进入邮箱，必须先被处理
+		if atomic.LoadInt32(&m.systemNum) > 0 {
+			continue
+		}
+		envelop := m.held
+		m.held = nil
+		atomic.AddInt32(&m.num, -1)
+		m.handler.HandleEnvelop(envelop)
 	}
 }
